@@ -22,7 +22,7 @@
    Two deviations of the implementation from this model are recorded findings (F21, F22), see
    known_findings.json; whole-text round trip of config_str is validated on the implementation. *)
 From Coq Require Import List String ZArith Bool Arith.
-From GinV Require Import Lib.Out Lib.PyStr Model.SelectorMap Model.Serial Model.DynReg Proofs.SerialProofs Proofs.DynRegProofs.
+From GinV Require Import Lib.Out Lib.PyStr Model.SelectorMap Model.Serial Model.DynReg Proofs.SerialProofs Proofs.DynRegProofs Proofs.DynRegProofs2.
 Import ListNotations.
 Open Scope string_scope.
 Open Scope list_scope.
@@ -154,6 +154,78 @@ Theorem C19_header_names_unique : forall imports, List.length imports + 3 <= 10 
   NoDup (map bound_name (import_manager imports)).
 Proof. exact import_manager_unique_names. Qed.
 
+(* ---- config_str: the emitted header and selectors (Proofs/DynRegProofs2.v) ---- *)
+(* the bound names of the emitted import statements are pairwise distinct, and none is the reserved name gin *)
+Theorem C19_header_bound_names_unique : forall s refs, header_bound s refs ->
+  NoDup (map bound_name (header_imports s refs)).
+Proof. exact DynRegProofs2.C19_header_bound_names_unique. Qed.
+Theorem C19_header_no_reserved_name : forall s refs, header_bound s refs -> dynamic_on s = true ->
+  forall i, In i (header_imports s refs) -> bound_name i <> "gin".
+Proof. exact DynRegProofs2.C19_header_no_reserved_name. Qed.
+(* the enabling statement comes first, in its canonical form *)
+Theorem C19_header_feature_first : forall s refs, dynamic_on s = true -> header_bound s refs -> canonical_feature s ->
+  exists body, header_imports s refs = feature_stmt :: body /\
+               forall i, In i body -> is_feature_module (i_module i) = false.
+Proof. exact DynRegProofs2.C19_header_feature_first. Qed.
+(* ... and for every state reached by parse calls the hypothesis canonical_feature holds *)
+Theorem C19_header_feature_first_reachable : forall univ pre s refs, pget "__gin__" univ = None -> reg_src_ok pre ->
+  reachable univ pre (s, refs) -> dynamic_on s = true -> header_bound s refs ->
+  exists body, header_imports s refs = feature_stmt :: body /\
+               forall i, In i body -> is_feature_module (i_module i) = false.
+Proof. exact DynRegProofs2.C19_header_feature_first_reachable. Qed.
+Theorem C19_reachable_canonical_feature : forall univ pre sr, pget "__gin__" univ = None -> reg_src_ok pre ->
+  reachable univ pre sr -> canonical_feature (fst sr).
+Proof. exact DynRegProofs2.reachable_canonical_feature. Qed.
+(* every emitted selector denotes, in a fresh process that parses the emitted header, the object it was registered for *)
+Theorem C19_emitted_selector_same_object : forall univ s refs sel e d rest leaf chain,
+  dynamic_on s = true -> header_bound s refs -> aliases_ok s -> canonical_feature s ->
+  header_importable univ (header_imports s refs) ->
+  In sel (needed s refs) -> find_sel sel (ds_reg s) = Some e -> ce_src e = Some (d, rest) ->
+  d_module d <> "__gin__.dynamic_registration" ->
+  import_path univ (split_dot (d_module d)) = Some leaf ->
+  follow leaf (split_dot rest) [] = Some chain -> obj_id (last chain POther) = Some (ce_obj e) ->
+  exists c' root d' chain',
+    process_all univ empty_ctx (header_imports s refs) = DOk c' /\
+    tget (hd "" (split_dot (emitted_selector s refs sel))) (c_table c') = Some (root, d') /\
+    follow root (tl (split_dot (emitted_selector s refs sel))) [] = Some chain' /\
+    obj_id (last chain' POther) = Some (ce_obj e).
+Proof. exact DynRegProofs2.C19_emitted_selector_same_object. Qed.
+(* the import source recorded for a name denotes the very object the name denotes *)
+Theorem C19_import_source_denotes : forall univ d0 leaf0 names chain d rest,
+  import_path univ (split_dot (d_module d0)) = Some leaf0 ->
+  hd "" names = d_bound_name d0 -> 2 <= List.length names ->
+  (forall x, In x names -> contains_char dot x = false) ->
+  follow (bound_obj univ (to_simport d0) leaf0) (tl names) [] = Some chain ->
+  import_source d0 names = (d, rest) ->
+  exists leaf chain', import_path univ (split_dot (d_module d)) = Some leaf /\
+    follow leaf (split_dot rest) [] = Some chain' /\ last chain' POther = last chain POther.
+Proof. exact DynRegProofs2.import_source_denotes. Qed.
+(* non-vacuity: two modules imported under the same name *)
+Theorem C19_colliding_names_realiased : Example.report =
+  (["from __gin__ import dynamic_registration"; "from pkga import util"; "from pkgb import util as util2"],
+   [("pkga.util.f", Some 1, "util.f", Some 1); ("pkgb.util.g", Some 2, "util2.g", Some 2)]).
+Proof. exact Example.colliding_names_realiased. Qed.
+(* the code before the repair: the emitted header could not be parsed back *)
+Theorem C19_orig_header_not_reparsable_uppercase_module :
+  snd (parse_call Findings.univ_Z Findings.file_Z Example.init) = ONone /\
+  map import_format (header_imports_orig Findings.s_Z []) = ["import Zmod"; "from __gin__ import dynamic_registration"] /\
+  process_all Findings.univ_Z empty_ctx (header_imports_orig Findings.s_Z []) = DErr "SyntaxError".
+Proof. exact Findings.C19_orig_header_not_reparsable_uppercase_module. Qed.
+Theorem C19_orig_header_not_reparsable_reserved_gin :
+  snd (parse_call Findings.univ_G Findings.file_G1 Example.init) = ONone /\
+  snd (parse_call Findings.univ_G Findings.file_G2 (fst (parse_call Findings.univ_G Findings.file_G1 Example.init))) = ONone /\
+  map import_format (header_imports_orig Findings.s_G []) = ["from __gin__ import dynamic_registration"; "import gin.config"; "import m"] /\
+  process_all Findings.univ_G empty_ctx (header_imports_orig Findings.s_G []) = DErr "ValueError".
+Proof. exact Findings.C19_orig_header_not_reparsable_reserved_gin. Qed.
+
+Theorem C19_orig_feature_statement_realiased :
+  snd (parse_call Findings.univ_P Findings.file_P Example.init) = ONone /\
+  map import_format (header_imports_addorig Findings.s_P []) =
+    ["from __gin__ import dynamic_registration as dynamic_registration2"; "from Pkg import dynamic_registration"] /\
+  process_all Findings.univ_P empty_ctx (header_imports_addorig Findings.s_P []) = DErr "SyntaxError" /\
+  process_all Findings.univ_P empty_ctx (header_imports_orig Findings.s_P []) = DErr "SyntaxError".
+Proof. exact Findings.C19_orig_feature_statement_realiased. Qed.
+
 Print Assumptions C19_unprovided_name.
 Print Assumptions C19_reserved_gin.
 Print Assumptions C19_late_enabling.
@@ -175,3 +247,14 @@ Print Assumptions C19_reference_survives_step.
 Print Assumptions C19_references_keep_working.
 Print Assumptions C19_reference_object_preserved.
 Print Assumptions C19_header_names_unique.
+Print Assumptions C19_header_bound_names_unique.
+Print Assumptions C19_header_no_reserved_name.
+Print Assumptions C19_header_feature_first.
+Print Assumptions C19_emitted_selector_same_object.
+Print Assumptions C19_import_source_denotes.
+Print Assumptions C19_colliding_names_realiased.
+Print Assumptions C19_orig_header_not_reparsable_uppercase_module.
+Print Assumptions C19_orig_header_not_reparsable_reserved_gin.
+Print Assumptions C19_header_feature_first_reachable.
+Print Assumptions C19_reachable_canonical_feature.
+Print Assumptions C19_orig_feature_statement_realiased.
